@@ -1314,3 +1314,21 @@ def failed_cleanup_keeps_queue_order(ctx, p):
     ctx.ob(p + 'q failed-cleanup-requeues-uncleaned-logs', 'K1-must-pass', b.path,
            'if truncating / syncing a log fails after logs were taken off the cleanup queue, the logs not cleaned are put back onto the queue before the error is returned',
            bad is None, '' if bad is None else 'error of %s returns with the taken logs forgotten: %s' % (b.term(bad[0]).get('r') or b.term(bad[0]).get('f'), lib.short_path(b, bad[1])), b.loc(take[0]))
+
+
+def lazily_created_files_dropped_leniently(ctx, p):
+    """Index and ref-count table files are created by the first entry enacted into the table (the mapping is None until then).
+    A table can therefore be queued, re-indexed (nothing to move) and dropped without ever having had a file - after a restart in
+    the middle of a growth that is an ordinary state. Removing its file is attempted only if the table has a mapping; an
+    unconditional remove_file fails with NotFound, the worker that enacts the DropTable record stops, and every later commit is
+    refused with a background error (F47)."""
+    F = ctx.F
+    n = 0
+    for fn, fld in (('index::IndexTable::drop_file', '.IndexTable.map'), ('ref_count::RefCountTable::drop_file', '.RefCountTable.map')):
+        b = ctx.body(fn)
+        if not b:
+            continue
+        for s in lib.sites_reaching(b, ['std::fs::remove_file']):
+            n += 1
+            lib.cond_guarded(ctx, p + 'a unlink-only-if-file-was-created %s' % fn, b, s, 'the table file is unlinked only depending on the table having a mapping (its file was created)', fields=[fld])
+    ctx.ob(p + 'a0 drop_file-sites', 'anchor', '-', 'IndexTable::drop_file and RefCountTable::drop_file unlink the table file', n == 2, 'found %d' % n)
